@@ -8,7 +8,7 @@ Docs == UNION {[1..n -> LineKinds] : n \in 0..MaxDocLen}
 
 \* all attribute combinations
 Attrs == [ method : Methods, versions : VersionKinds, tags : {{}, {"t1"}, {"t1", "t2"}},
-           opid : {"none", "custom"}, ctype : {"json", "form"}, maxbytes : {0, 4096},
+           opid : {"none", "custom"}, ctype : {"json", "form"}, maxbytes : {0, 64, 4096},
            deprecated : BOOLEAN, unpublished : BOOLEAN, kind : {"endpoint", "channel"} ]
 \* body-related arguments only make sense with a body; channels are GET
 Sensible(a) ==
